@@ -283,6 +283,202 @@ func runC07(r *ev.Run) {
 		r.Count("roundtrips:large-flat", 1)
 		r.Eval(true, ev.Digest("large", n, dim, metric))
 	})
+	c07Extra(r)
+}
+
+// c07Wide: a few vectors of a dimension beyond the usual block sizes (1024 components and more, no multiple of them);
+// c07HybridTrained: a hybrid index over a TRAINED quantising / clustering vector index that holds no vector at the time
+// it is written (text- or metadata-only documents, every vector document removed, nothing at all): the reloaded index is
+// trained like its source and goes on accepting what the source accepts.
+func c07Extra(r *ev.Run) {
+	r.Cases("wide", r.Pick(6, 30), func(ci int, rng *rand.Rand) {
+		dim := []int{1025, 1100, 1536, 2049, 3000, 4097}[ci%6]
+		metric := allMetrics[(ci/2)%3]
+		rep := func(sig, what string) {
+			r.ViolationAt("wide", ci, sig, fmt.Sprintf("flat %s dim=%d: %s", metric, dim, what), nil)
+		}
+		src, err := comet.NewFlatIndex(dim, metric)
+		if err != nil {
+			rep("ser.setup", err.Error())
+			return
+		}
+		n := 2 + rng.IntN(6)
+		for i := 0; i < n; i++ {
+			v := make([]float32, dim)
+			for j := range v {
+				v[j] = float32(rng.NormFloat64())
+			}
+			if err := src.Add(*comet.NewVectorNodeWithID(uint32(i+1), v)); err != nil {
+				rep("ser.flat.add-error", err.Error())
+				return
+			}
+		}
+		var buf bytes.Buffer
+		nw, err := src.WriteTo(&buf)
+		if err != nil || nw != int64(buf.Len()) {
+			rep("ser.flat.write-count", fmt.Sprintf("WriteTo returned %d, %v for %d bytes", nw, err, buf.Len()))
+			return
+		}
+		dst, _ := comet.NewFlatIndex(dim, metric)
+		nr, err := dst.ReadFrom(bytes.NewReader(buf.Bytes()))
+		if err != nil || nr != int64(buf.Len()) {
+			rep("ser.flat.read-error", fmt.Sprintf("ReadFrom of a valid stream: n=%d of %d, %v", nr, buf.Len(), err))
+			return
+		}
+		for t := 0; t < 4; t++ {
+			q := make([]float32, dim)
+			for j := range q {
+				q[j] = float32(rng.NormFloat64())
+			}
+			a, e1 := src.NewSearch().WithQuery(cloneF32(q)).WithK(0).Execute()
+			b, e2 := dst.NewSearch().WithQuery(cloneF32(q)).WithK(0).Execute()
+			if e1 != nil || e2 != nil || len(a) != len(b) {
+				rep("ser.flat.answers-differ", fmt.Sprintf("complete listing: source %d results / %v, reloaded %d / %v", len(a), e1, len(b), e2))
+				break
+			}
+			for i := range a {
+				if a[i].GetId() != b[i].GetId() || math.Float32bits(a[i].GetScore()) != math.Float32bits(b[i].GetScore()) {
+					rep("ser.flat.answers-differ", fmt.Sprintf("rank %d: source %d:%g, reloaded %d:%g", i, a[i].GetId(), a[i].GetScore(), b[i].GetId(), b[i].GetScore()))
+					break
+				}
+			}
+		}
+		r.Count("roundtrips:wide-flat", 1)
+		r.Eval(true, ev.Digest("wide", dim, metric, n))
+	})
+	r.Cases("hybrid-trained", r.Pick(18, 180), func(ci int, rng *rand.Rand) {
+		kind := []string{"ivf", "pq", "ivfpq"}[ci%3]
+		shape := (ci / 3) % 3 // 0 nothing at all, 1 text / metadata-only documents, 2 vector documents all removed again
+		metric := allMetrics[rng.IntN(3)]
+		const dim = 4
+		rep := func(sig, what string) {
+			r.ViolationAt("hybrid-trained", ci, sig, fmt.Sprintf("hybrid over trained %s (%s), shape %d: %s", kind, metric, shape, what), nil)
+		}
+		train := make([]comet.VectorNode, 0, 300)
+		for i := 0; i < 300; i++ {
+			v := make([]float32, dim)
+			for j := range v {
+				v[j] = float32(rng.NormFloat64())
+			}
+			v[0] += float32(i%3) * 5
+			train = append(train, *comet.NewVectorNodeWithID(uint32(1000+i), v))
+		}
+		mk := func(trainIt bool) (comet.HybridSearchIndex, comet.VectorIndex, error) {
+			var vi comet.VectorIndex
+			var err error
+			switch kind {
+			case "ivf":
+				vi, err = comet.NewIVFIndex(dim, 3, metric)
+			case "pq":
+				vi, err = comet.NewPQIndex(dim, metric, 2, 4)
+			default:
+				vi, err = comet.NewIVFPQIndex(dim, metric, 3, 2, 4)
+			}
+			if err != nil {
+				return nil, nil, err
+			}
+			if trainIt {
+				cp := make([]comet.VectorNode, len(train))
+				for i, t := range train {
+					cp[i] = *comet.NewVectorNodeWithID(t.ID(), cloneF32(t.Vector()))
+				}
+				if err := vi.Train(cp); err != nil {
+					return nil, nil, err
+				}
+			}
+			return comet.NewHybridSearchIndex(vi, comet.NewBM25SearchIndex(), comet.NewRoaringMetadataIndex()), vi, nil
+		}
+		src, _, err := mk(true)
+		if err != nil {
+			rep("ser.setup", err.Error())
+			return
+		}
+		vec := func() []float32 {
+			v := make([]float32, dim)
+			for j := range v {
+				v[j] = float32(rng.NormFloat64())
+			}
+			v[0] += 0.25
+			return v
+		}
+		id := uint32(1 << 24)
+		if shape == 1 {
+			for i := 0; i < 1+rng.IntN(4); i++ {
+				id++
+				if err := src.AddWithID(id, nil, "alpha beta", map[string]any{"kind": "doc"}); err != nil {
+					rep("ser.setup", err.Error())
+					return
+				}
+			}
+		}
+		if shape == 2 {
+			var added []uint32
+			for i := 0; i < 1+rng.IntN(4); i++ {
+				id++
+				if err := src.AddWithID(id, vec(), "alpha", nil); err != nil {
+					rep("ser.setup", err.Error())
+					return
+				}
+				added = append(added, id)
+			}
+			for _, a := range added {
+				src.Remove(a)
+			}
+			if rng.IntN(2) == 0 {
+				src.Flush()
+			}
+		}
+		var buf bytes.Buffer
+		if _, err := hybridWriteAll(src, &buf); err != nil {
+			rep("ser.hybrid.write-error", err.Error())
+			return
+		}
+		// the receiver: the same construction; trained or not (an untrained receiver takes its training from the stream)
+		dst, _, err := mk(rng.IntN(2) == 0)
+		if err != nil {
+			rep("ser.setup", err.Error())
+			return
+		}
+		rd := bytes.NewReader(buf.Bytes())
+		if _, err := dst.ReadFrom(rd); err != nil {
+			rep("ser.hybrid.read-error", "ReadFrom of a valid stream: "+err.Error())
+			return
+		}
+		// continuation: both accept the same documents and answer alike
+		for i := 0; i < 3+rng.IntN(4); i++ {
+			id++
+			v := vec()
+			e1 := src.AddWithID(id, cloneF32(v), "gamma", map[string]any{"kind": "new"})
+			e2 := dst.AddWithID(id, cloneF32(v), "gamma", map[string]any{"kind": "new"})
+			if (e1 == nil) != (e2 == nil) {
+				rep("ser.hybrid.continuation-differs", fmt.Sprintf("AddWithID(%d, vector, text, metadata): source answers %v, reloaded index answers %v", id, e1, e2))
+				return
+			}
+		}
+		q := vec()
+		answer := func(h comet.HybridSearchIndex) (map[uint32]float64, error) {
+			res, err := h.NewSearch().WithVector(cloneF32(q)).WithK(1 << 20).WithNProbes(3).Execute()
+			out := map[uint32]float64{}
+			for _, x := range res {
+				out[x.ID] = float64(x.Score)
+			}
+			return out, err
+		}
+		a, e1 := answer(src)
+		b, e2 := answer(dst)
+		if (e1 == nil) != (e2 == nil) || len(a) != len(b) {
+			rep("ser.hybrid.continuation-differs", fmt.Sprintf("vector query after the continuation: source %d results / %v, reloaded %d / %v", len(a), e1, len(b), e2))
+			return
+		}
+		for k, sa := range a {
+			if sb, ok := b[k]; !ok || math.Abs(sa-sb) > 1e-4*(1+math.Abs(sa)) {
+				rep("ser.hybrid.continuation-differs", fmt.Sprintf("vector query after the continuation: id %d source score %g, reloaded %v (present %v)", k, sa, sb, ok))
+				return
+			}
+		}
+		r.Count("roundtrips:hybrid-over-trained-"+kind, 1)
+		r.Eval(len(a) > 0, ev.Digest("hybrid-trained", kind, shape, metric, ci))
+	})
 }
 
 var scoreRe = regexp.MustCompile(`:[-+0-9.eE]+(NaN|Inf)?`)
